@@ -19,7 +19,7 @@ Three kinds of statements:
   rpgp's bytes) denotes the modelled function under *every* interpretation of the primitives.
 -/
 namespace Rpgp.C12
-open Rpgp
+open Rpgp Rpgp.Sym
 
 /-! ## the constants are the RFC's and all use sites agree -/
 
@@ -154,7 +154,7 @@ theorem iterated_plan_expands (P : Prims) (salt pw : Bytes) (c : Nat) :
 /-- `rounds = ⌈key_size / digest_size⌉`: enough digests, and none too many -/
 theorem rounds_cover (ks d : Nat) (hd : 0 < d) :
     ks ≤ S2k.rounds ks d * d ∧ (0 < ks → (S2k.rounds ks d - 1) * d < ks) :=
-  Rpgp.rounds_cover ks d hd
+  Rpgp.Sym.rounds_cover ks d hd
 
 /-- the derived key is the first `key_size` octets of `H(body) ‖ H(00 ‖ body) ‖ H(00 00 ‖ body) ‖ …`
 (round `r` is preloaded with `r` zero octets), for every key size, incl. multi-round derivation -/
@@ -166,7 +166,7 @@ theorem derive_is_prefix_of_preloaded_digests (P : Prims) (alg d : Nat) (body : 
   have h := deriveHashed_eq_take P alg d body ks hd hlen
   refine ⟨h, ?_⟩
   rw [h, List.length_take, flatMap_length_const _ d _ (fun r => hlen _)]
-  exact Nat.min_eq_left (Rpgp.rounds_cover ks d hd).1
+  exact Nat.min_eq_left (Rpgp.Sym.rounds_cover ks d hd).1
 
 /-- whatever Argon2 parameters `derive_key` lets through (its own checks + the `argon2` crate's)
 are in RFC 9580 §3.7.1.4's range: `3 + ⌈log₂ p⌉ ≤ encoded_m ≤ 31`, `t, p ≥ 1`; memory is `2^encoded_m` KiB -/
@@ -402,9 +402,32 @@ theorem skesk6_plan_sound (P : Prims) (sym aead : Nat) (s : S2k.Spec) (pw sk iv 
     (Skesk.plan6 true sym aead s pw sk iv).map (PExpr.eval P) = Skesk.body6 P sym aead s pw sk iv :=
   Skesk.plan6_eval P sym aead s pw sk iv
 
-theorem seckey_cfb_plan_sound (P : Prims) (sym : Nat) (s : S2k.Spec) (pw iv raw : Bytes) :
-    (SecKey.cfbPlan true sym s pw iv raw).map (PExpr.eval P) = SecKey.cfbData P sym s pw iv raw :=
-  SecKey.cfbPlan_eval P sym s pw iv raw
+theorem seckey_cfb_plan_sound (P : Prims) (ver sym : Nat) (s : S2k.Spec) (pw iv raw : Bytes) :
+    (SecKey.cfbPlan true ver sym s pw iv raw).map (PExpr.eval P) = SecKey.cfbData P ver sym s pw iv raw :=
+  SecKey.cfbPlan_eval P ver sym s pw iv raw
+
+/-- what the lock side writes is what the unlock side is willing to open: AEAD only with Argon2 or
+iterated+salted S2K, CFB never with Argon2 and, for version 6 keys, only with iterated+salted or
+salted S2K; never MD5 / SHA-1 / RIPEMD-160 -/
+theorem seckey_lock_admission (P : Prims) (ver sym aead tag : Nat) (s : S2k.Spec) (pw iv pubBody raw out : Bytes) :
+    (SecKey.cfbData P ver sym s pw iv raw = some out →
+      s.weakHash = false ∧ s.isArgon2 = false ∧
+        (ver = 6 → (∃ h salt c, s = .iterated h salt c) ∨ (∃ h salt, s = .salted h salt))) ∧
+    (SecKey.aeadData P sym aead s pw iv tag ver pubBody raw = some out →
+      s.weakHash = false ∧ ((∃ salt t p m, s = .argon2 salt t p m) ∨ (∃ h salt c, s = .iterated h salt c))) := by
+  constructor
+  · intro h
+    unfold SecKey.cfbData at h
+    cases hL : SecKey.cfbLockAllowed ver s
+    · simp [hL] at h
+    · unfold SecKey.cfbLockAllowed at hL
+      cases s <;> simp_all [S2k.Spec.isArgon2]
+  · intro h
+    unfold SecKey.aeadData at h
+    cases hL : SecKey.aeadLockAllowed s
+    · simp [hL] at h
+    · unfold SecKey.aeadLockAllowed at hL
+      cases s <;> simp_all
 
 theorem seckey_aead_plan_sound (P : Prims) (sym aead : Nat) (s : S2k.Spec) (pw nonce : Bytes) (tag ver : Nat)
     (pubBody raw : Bytes) :
@@ -442,46 +465,25 @@ theorem pad_multiple_of_8 (x : Bytes) :
 /-- **pad_unpad**: for every non-empty key of *every* length (in particular 1..239) -/
 theorem pad_unpad (x : Bytes) (hx : x ≠ []) : Ecdh.unpad (Ecdh.pad x) = some x := unpad_pad x hx
 
-/- Full-strength statement (RFC 9580 §11.5 / RFC 8018: the padding is `k` octets of value `k`, `k ≥ 1`):
-
-     theorem unpad_accepts_only_padded (d x : Bytes) (h : Ecdh.unpad d = some x) :
-         ∃ k, 1 ≤ k ∧ k ≤ 255 ∧ d = x ++ List.replicate k k.toUInt8
-
-   It does NOT hold for the code as it stands (finding D12a): a last octet of value 0 passes all checks
-   of `derive_session_key` and nothing is stripped — see `unpad_zero_pad_witness`.  The guarded version: -/
-
-/-- what the reader accepts is a non-empty key followed by `k` octets of value `k` (`k` the last
-octet), the whole being a multiple of 8 octets — **provided the last octet is not 0** -/
-theorem unpad_accepts_only_padded_partial (d x : Bytes) (h : Ecdh.unpad d = some x) (hk : d.getLastD 0 ≠ 0) :
+/-- the reader accepts only a non-empty key followed by `k` octets of value `k`, `1 ≤ k ≤ 255`
+(`k` the last octet), the whole being a multiple of 8 octets (RFC 9580 §11.5 / RFC 8018 padding;
+more than 8 padding octets are allowed).  Full statement since the fix of D12a. -/
+theorem unpad_accepts_only_padded (d x : Bytes) (h : Ecdh.unpad d = some x) :
     ∃ k, 1 ≤ k ∧ k ≤ 255 ∧ d = x ++ List.replicate k k.toUInt8 ∧ x ≠ [] ∧ d.length % 8 = 0 := by
-  obtain ⟨h8, hx, hd⟩ := unpad_sound d x h
-  refine ⟨(d.getLastD 0).toNat, ?_, ?_, ?_, hx, h8⟩
-  · rcases Nat.eq_zero_or_pos (d.getLastD 0).toNat with h0 | h0
-    · exact absurd (UInt8.toNat_inj.mp (by simpa using h0)) hk
-    · exact h0
+  obtain ⟨h8, hx, hk, hd⟩ := unpad_sound d x h
+  refine ⟨(d.getLastD 0).toNat, hk, ?_, ?_, hx, h8⟩
   · have := (d.getLastD 0).toNat_lt; omega
   · have e : (d.getLastD 0).toNat.toUInt8 = d.getLastD 0 := by simp
     rw [e]; exact hd
 
-/-- negation of the full statement on a concrete input: padding octet 0 is accepted, nothing stripped -/
-theorem unpad_zero_pad_witness :
-    Ecdh.unpad [1, 2, 3, 4, 5, 6, 7, 0] = some [1, 2, 3, 4, 5, 6, 7, 0] ∧
-    ¬ ∃ k, 1 ≤ k ∧ ([1, 2, 3, 4, 5, 6, 7, 0] : Bytes) = [1, 2, 3, 4, 5, 6, 7, 0] ++ List.replicate k k.toUInt8 := by
-  refine ⟨by decide, ?_⟩
-  rintro ⟨k, hk, h⟩
-  have := congrArg List.length h
-  simp at this
-  omega
+/-- in particular a padding octet of value 0 is refused (was accepted before the fix of D12a) -/
+theorem unpad_rejects_zero_pad (d : Bytes) (h0 : d.getLastD 0 = 0) : Ecdh.unpad d = none :=
+  unpad_zero_pad_refused d h0
 
-/-- why D12a is not reachable as a decrypted message: such a "key" has a length that is a
-multiple of 8, which neither `cipher ‖ key ‖ checksum` (19/27/35) nor `key ‖ checksum` (18/26/34) is -/
-theorem unpad_zero_pad_is_multiple_of_8 (d x : Bytes) (h : Ecdh.unpad d = some x) (h0 : d.getLastD 0 = 0) :
-    x = d ∧ x.length % 8 = 0 ∧ x.length ∉ [18, 19, 26, 27, 34, 35] := by
-  obtain ⟨h1, h2⟩ := unpad_zero_pad_length d x h h0
-  refine ⟨h1, h2, ?_⟩
-  intro hm
-  simp at hm
-  omega
+/-- and so is a stream that is nothing but padding (no key left) -/
+theorem unpad_rejects_all_padding : Ecdh.unpad [8, 8, 8, 8, 8, 8, 8, 8] = none ∧
+    Ecdh.unpad [1, 2, 3, 4, 5, 6, 7, 0] = none ∧ Ecdh.unpad [1, 2, 3, 4, 5, 6, 7, 1] = some [1, 2, 3, 4, 5, 6, 7] := by
+  decide
 
 theorem ecdh_wrap_plan_sound (P : Prims) (oid : Bytes) (hash sym : Nat) (fp z plain : Bytes)
     (hk : ∀ k, Ecdh.kdf P hash z (Gen.c12SymKeySize sym) (Ecdh.param oid sym hash fp) = some k → Ecdh.kekOk k = true) :
